@@ -3015,7 +3015,7 @@ func (dsc *dataStoreCommand) load(l lane.Lane, path string) (err error) {
 	return
 }
 
-func (dsc *dataStoreCommand) sort(sourceKeyName, byPattern, destKeyName string, startAt, count int, getPatterns []string, limit, desc, alpha bool) (output respValue) {
+func (dsc *dataStoreCommand) sort(sourceKeyName, byPattern, destKeyName string, store bool, startAt, count int, getPatterns []string, limit, desc, alpha bool) (output respValue) {
 	dsc.lock()
 	defer dsc.unlock()
 
@@ -3034,7 +3034,7 @@ func (dsc *dataStoreCommand) sort(sourceKeyName, byPattern, destKeyName string, 
 	} else {
 		sk, objExists := dsc.getKeyObjectUnlocked(sourceKeyName)
 		if !objExists {
-			if destKeyName != "" {
+			if store {
 				// nothing to store: the destination ends up missing
 				dsc.ds.data.remove(destKeyName)
 				output.data = respInt(0)
@@ -3183,7 +3183,7 @@ func (dsc *dataStoreCommand) sort(sourceKeyName, byPattern, destKeyName string, 
 		}
 	}
 
-	if destKeyName != "" {
+	if store {
 		// STORE replaces whatever the destination held
 		dsc.ds.data.remove(destKeyName)
 		if len(a) == 0 {
